@@ -319,7 +319,7 @@ class Explorer(object):
             c = self.port.module_consts(self.modname).get(e.id, NOT_HANDLED) if hasattr(self.port, 'module_consts') else NOT_HANDLED
             if c is not NOT_HANDLED:
                 return c
-            if e.id in ('len', 'iter', 'str', 'int', 'bool', 'list', 'tuple', 'isinstance', 'range', 'enumerate', 'min', 'max'):
+            if e.id in ('len', 'iter', 'str', 'int', 'bool', 'list', 'tuple', 'isinstance', 'range', 'enumerate', 'min', 'max', 'any', 'all'):
                 return ('builtin', e.id)
             raise Undecided('name {} unknown in abstract exploration'.format(e.id), e)
         if isinstance(e, (ast.List, ast.Tuple)):
@@ -387,7 +387,8 @@ class Explorer(object):
                 if isinstance(x, ast.Constant):
                     parts.append(x.value)
                 else:
-                    parts.append(self.expr(x.value, env))
+                    v_ = self.expr(x.value, env)
+                    parts.append(str(v_) if isinstance(v_, int) and not isinstance(v_, bool) else v_)
             if all(isinstance(x, str) for x in parts):
                 return ''.join(parts)
             return Abs('Text', parts=tuple(parts))
@@ -417,6 +418,8 @@ class Explorer(object):
             return len(obj)
         if isinstance(obj, (list, tuple, str, dict)) or isinstance(obj, Abs):
             return ('method', obj, name)
+        if obj is None:
+            raise Raised(Abs('AttributeError' if getattr(self.port, 'name', 'py') == 'py' else 'TypeError'), node)
         raise Undecided('attribute {} of {!r} unknown in abstract exploration'.format(name, obj), node)
 
     def compare(self, op, a, b, node):
@@ -467,6 +470,8 @@ class Explorer(object):
             return a + b
         if isinstance(op, ast.Add) and isinstance(a, str) and isinstance(b, str):
             return a + b
+        if isinstance(op, ast.Add) and getattr(self.port, 'name', 'py') == 'js' and ((isinstance(a, str) and isinstance(b, int)) or (isinstance(a, int) and isinstance(b, str))) and not isinstance(a, bool) and not isinstance(b, bool):
+            return str(a) + str(b)
         if isinstance(op, ast.Add) and (isinstance(a, (Abs, str)) and isinstance(b, (Abs, str))):
             return Abs('Text', parts=_parts(a) + _parts(b))
         if isinstance(op, ast.BitXor) and isinstance(a, bool) and isinstance(b, bool):
@@ -541,6 +546,9 @@ class Explorer(object):
                 ast.copy_location(fake, node)
                 ast.fix_missing_locations(fake)
                 return LazyIter(lambda: self.call(fake, {'__recv__': recv}), args[1])
+        if name in ('any', 'all') and len(args) == 1 and isinstance(args[0], (list, tuple)):
+            ts = [self.truth(x, node) for x in args[0]]
+            return any(ts) if name == 'any' else all(ts)
         if name == 'bool' and len(args) == 1:
             return self.truth(args[0], node)
         if name in ('list', 'tuple') and len(args) == 1 and isinstance(args[0], LazyIter):
@@ -575,6 +583,20 @@ class Explorer(object):
                 return list(recv)
             if m == 'map' and len(args) == 1:
                 return [self.apply(args[0], [x], node) for x in recv]
+            if m in ('some', 'every') and len(args) == 1:
+                ts = [self.truth(self.apply(args[0], [x], node), node) for x in recv]
+                return any(ts) if m == 'some' else all(ts)
+            if m == 'filter' and len(args) == 1:
+                return [x for x in recv if self.truth(self.apply(args[0], [x], node), node)]
+            if m == 'concat' and all(isinstance(a, list) for a in args):
+                out_ = list(recv)
+                for a in args:
+                    out_ += a
+                return out_
+            if m in ('indexOf', 'index') and len(args) == 1 and not isinstance(args[0], Abs):
+                return recv.index(args[0]) if args[0] in recv else -1
+            if m == 'includes' and len(args) == 1:
+                return any(x is args[0] or (not isinstance(x, Abs) and not isinstance(args[0], Abs) and x == args[0]) for x in recv)
         if isinstance(recv, str):
             if m == 'join' and len(args) == 1 and isinstance(args[0], (list, tuple)):
                 if all(isinstance(x, str) for x in args[0]):
@@ -585,6 +607,11 @@ class Explorer(object):
             if m == 'count' and len(args) == 1 and isinstance(args[0], str):
                 return recv.count(args[0])
             if m == 'format':
+                if all(isinstance(a, (str, int)) and not isinstance(a, bool) for a in args):
+                    try:
+                        return recv.format(*args)
+                    except (IndexError, KeyError, ValueError):
+                        pass
                 return Abs('Text', parts=(recv,) + tuple(args))
         if isinstance(recv, dict):
             if m == 'get' and 1 <= len(args) <= 2:
